@@ -57,6 +57,24 @@ Section Spec.
     forall t defs, reg_find reg t = Some (CObj defs) -> closed_list defs.
 End Spec.
 
+(* size of a value: one per node plus the payload of strings (code points) and bytes — a proxy
+   for the memory the decoded Python object graph takes, up to a constant per node *)
+Fixpoint vsize (v : value) : Z :=
+  match v with
+  | VNone | VBool _ | VInt _ | VFloat _ | VUnsup => 1
+  | VStr s => 1 + len s
+  | VBytes b => 1 + len b
+  | VList l | VTuple l | VSet l => 1 + fold_right (fun x a => vsize x + a) 0 l
+  | VDict kv => 1 + fold_right (fun p a => vsize (fst p) + vsize (snd p) + a) 0 kv
+  | VObj _ fs => 1 + fold_right (fun x a => vsize x + a) 0 fs
+  | VEnum _ x => 1 + vsize x
+  end.
+Definition lsize (l : list value) : Z := fold_right (fun x a => vsize x + a) 0 l.
+Definition dsize (kv : list (value * value)) : Z := fold_right (fun p a => vsize (fst p) + vsize (snd p) + a) 0 kv.
+(* D bounds the size of the defaults of every class of the registry *)
+Definition reg_defsize_le (reg : registry) (D : Z) : Prop :=
+  forall t defs, reg_find reg t = Some (CObj defs) -> lsize defs <= D.
+
 (* the cap on the declared length of each length-prefixed base type *)
 Definition cap_of (k : bk) : option Z :=
   match k with
